@@ -211,3 +211,13 @@ Theorem C04_translated_boot_refines_model_full : forall (c : cfg) (m : img) (ic 
             GoLiteBootRefine.saved_heights o = GoLiteBootRefine.model_block_heights (boot c m true ic).
 Proof. exact GoLiteBootRefine.translated_boot_refines_model. Qed.
 Print Assumptions C04_translated_boot_refines_model_full.
+
+(* ---- the start of NewManager TRANSLATED FROM THE SOURCE (Check/GoLiteStartup.v, regenerated on every run) ----------
+   Whenever the initial state was obtained, the start-up asks the store to set its height to EXACTLY the state's
+   LastBlockHeight, in every world (go_NewManager_start gives the complete call sequence): the write by which a
+   start-up repairs a process that died between the state write and the height write of a block. *)
+From Verif Require Check.GoLiteStartup.
+Theorem C04_translated_startup_sets_the_height_full : forall w : GoLiteStartup.nworld,
+  GoLiteStartup.n_init_ok w = true -> In (GoLiteStartup.height_call w) (snd (GoLiteStartup.start_expect w)).
+Proof. exact GoLiteStartup.startup_always_sets_the_height. Qed.
+Print Assumptions C04_translated_startup_sets_the_height_full.
